@@ -146,7 +146,8 @@ var ksPasswords = []string{"", "correcthorsebatterystaple", "pÃ¤sswÃ¶rd âœ“ å¯†ç
 func init() {
 	// ---------------------------------------------------------------- C07
 	register(&Suite{
-		Prop: "C07",
+		Prop:     "C07",
+		Parallel: true,
 		Gen: func(c *Ctx) {
 			r := c.R
 			// primitives: Lean reference vs Go libraries
@@ -310,7 +311,8 @@ func init() {
 
 	// ---------------------------------------------------------------- C15
 	register(&Suite{
-		Prop: "C15",
+		Prop:     "C15",
+		Parallel: true,
 		Gen: func(c *Ctx) {
 			r := c.R
 			n := 40
